@@ -243,10 +243,10 @@ def sched_second_step_refused(h, d, layout):
             r.open("h1")
             r.start("h1", SEL_META)
             r.finish("h1")
-            r.foreign_lock("w2")
+            r.foreign_lock("f1")
             r.start("h1", OPS[opn])
             r.finish("h1")
-            r.foreign_unlock("w2")
+            r.foreign_unlock("f1")
             r.sql("w1", "BEGIN IMMEDIATE")
             r.sql("w1", "UPDATE meta SET v = v + 1")
             r.sql("w1", "COMMIT", commits=True)
